@@ -87,4 +87,30 @@ theorem writer_entry_eq_align (sigS loc : States) (bits : Nat) (nums : List Nat)
       simp [Nat.or_comm]
   · rfl
 
+/-- the forward-only cursor of `load_signals` stops at the first index, at or after its position, whose entry is not
+below the callback time (no assumption on the table) -/
+theorem cursor_first (tt : List Nat) (t : Nat) : ∀ (fuel idx : Nat), tt.length < idx + fuel →
+    (∃ j, idx ≤ j ∧ ∃ h : j < tt.length, t ≤ tt[j]) →
+    ∃ i, cursorAdvance tt idx t fuel = some i ∧ idx ≤ i ∧ (∃ h : i < tt.length, t ≤ tt[i]) ∧
+      ∀ k, idx ≤ k → k < i → ∃ h : k < tt.length, tt[k] < t := by
+  intro fuel
+  induction fuel with
+  | zero => intro idx hf ⟨j, hj, hlt, _⟩; omega
+  | succ n ih =>
+    intro idx hf ⟨j, hj, hlt, hge⟩
+    have hidx : idx < tt.length := by omega
+    unfold cursorAdvance
+    rw [List.getElem?_eq_getElem hidx]
+    by_cases hc : tt[idx] < t
+    · simp only [hc, if_true]
+      have hne : j ≠ idx := by intro h; subst h; omega
+      obtain ⟨i, hi, hle, hprop, hall⟩ := ih (idx + 1) (by omega) ⟨j, by omega, hlt, hge⟩
+      refine ⟨i, hi, by omega, hprop, ?_⟩
+      intro k hk hki
+      by_cases hk' : k = idx
+      · subst hk'; exact ⟨hidx, hc⟩
+      · exact hall k (by omega) hki
+    · simp only [hc, if_false]
+      exact ⟨idx, rfl, Nat.le_refl _, ⟨hidx, by omega⟩, by intro k h1 h2; omega⟩
+
 end Wellen.Fst
